@@ -28,7 +28,23 @@ func (r rt) RoundTrip(req *http.Request) (*http.Response, error) {
 	return &http.Response{StatusCode: 200, Status: "200 OK", Body: io.NopCloser(&b), Header: http.Header{}, Request: req}, nil
 }
 
+// messages: xhelper20 messages <n>: n sources that all fail, fetched in parallel with pprof's own message
+// printer (stderr); the parent checks that every line arrives whole.
+func messages(n int) {
+	var args []string
+	for i := 0; i < n; i++ {
+		args = append(args, fmt.Sprintf("http://remote.example/profile-number-%03d-abcdefghijklmnopqrstuvwxyz0123456789ABCDEFGHIJKLMNOPQRSTUVWXYZ", i))
+	}
+	// every fetch goroutine announces its source ("Fetching profile over HTTP from ...") before fetching
+	pp.RunNoCapture(pp.Req{Flags: map[string]string{"top": "true", "output": "out"}, Args: args, NoFetch: true, RT: rt{"m"}, StdUI: true})
+}
+
 func main() {
+	if len(os.Args) >= 3 && os.Args[1] == "messages" {
+		n, _ := strconv.Atoi(os.Args[2])
+		messages(n)
+		return
+	}
 	if len(os.Args) < 4 || os.Args[1] != "tempfiles" {
 		os.Exit(2)
 	}
